@@ -72,6 +72,9 @@ def dispatch (prop mode : String) : Option (List String → String) :=
   | "C09", "modelfilt" => some FilteringDriver.model
   | "C09", "specfilt" => some FilteringDriver.spec
   | "C08", "model" => some DirectiveDriver.model2
+  | "C08", "modelstack" => some FilteringDriver.model
+  | "C08", "modelchain" => some FilteringDriver.modelChain
+  | "C08", "spec" => some FilteringDriver.spec
   | "C18", "model" => some LogBridgeDriver.modelBridge
   | "C18", "modelfeat" => some LogBridgeDriver.modelFeat
   | "C18", "specfeat" => some LogBridgeDriver.specFeat
